@@ -1,7 +1,10 @@
 SPEC = {'id': 'C09',
  'manifest': {'technique': 'Coq invariant proof over the channel-level state machine of servePacket/packetConn + trace validation of the real UDP '
                            'server loop',
-              'level_text': 'per_client_in_order and fresh_after_end over all interleavings of the modelled steps; loop_never_panics is refuted for '
-                            "today's Close order (recorded finding) and proved for the notify-before-close order; real servePacket traces are "
-                            'validated against the model.',
-              'level_note': "Go's scheduler = arbitrary interleaving of the modelled atomic steps."}}
+              'level_text': 'per_client_in_order, reads/replies own address, fresh_after_end, one_live_association and loop_never_panics proved over '
+                            'all interleavings for the configuration l4gen reads from the source (Close never closes readCh, notifications carry '
+                            'identity); the pre-repair order is kept as legacy_cfg with its refutation witnesses. Every scenario of the real '
+                            "servePacket runs in a child process (crash observed), logs are accepted by the model's checker, sequential ones are "
+                            'replayed step by step.',
+              'level_note': "Go's scheduler = arbitrary interleaving of the modelled atomic steps; liveness is not claimed; client addresses are "
+                            'opaque keys (equality of addr.String()).'}}
